@@ -99,6 +99,8 @@ class ExprMixin:
         """value of a module-level constant: evaluated in an empty state (must be path-free and heap-free,
         except literal containers which are rebuilt on demand)"""
         key = (mod, name)
+        if key in self.const_overrides:
+            return self.const_overrides[key]
         cache = self.__dict__.setdefault("_constcache", {})
         if key in cache:
             return cache[key]
@@ -584,6 +586,8 @@ class ExprMixin:
             va = a.val if isinstance(a, Opt) else a
             vb = b.val if isinstance(b, Opt) else b
             return z3.Or(z3.And(ia, ib), z3.And(z3.Not(ia), z3.Not(ib), self.identical(st, va, vb)))
+        if isinstance(a, BytesV) and isinstance(b, BytesV) and self.spec_mode:
+            return self.bytes_eq(st, a, b)       # immutable values: specifications compare them by value
         if type(a) is not type(b) and isinstance(a, (Ref, Opaque, Rec, TupleV, StrV)) and isinstance(b, (Ref, Opaque, Rec, TupleV, StrV)):
             return z3.BoolVal(False)
         raise Unsupported(f"'is' on {type(a).__name__}, {type(b).__name__}")
